@@ -191,4 +191,110 @@ impl Whirlpool {
         r is Ok ==> old(ctx.accounts).adaptive_fee_tier.data.whirlpools_config == old(ctx.accounts).whirlpool.data.whirlpools_config && old(ctx.accounts).adaptive_fee_tier.data.fee_tier_index == old(ctx.accounts).whirlpool.data.fee_tier_index_spec() && old(ctx.accounts).whirlpool.data.fee_tier_index_spec() != old(ctx.accounts).whirlpool.data.tick_spacing, //# C04
         r is Ok ==> fee_rate <= 60_000 && final(ctx.accounts).whirlpool.data == (Whirlpool { fee_rate: fee_rate, ..old(ctx.accounts).whirlpool.data }), //# C19
 //@ end
+
+// ------------------------------------------------------------------ token badges and the config extension
+//@ assume token-badge handler shims: WhirlpoolsConfig::verify_enabled_feature (bitflags `contains`) is an external stub over the uninterpreted predicate feature_enabled; ConfigFeatureFlags::TOKEN_BADGE is the opaque constant flag_token_badge(); the mint account is a key-only placeholder
+pub struct Mint {}
+pub use crate::authority::InterfaceAccount;
+pub uninterp spec fn feature_enabled(flags: u16, f: crate::validators::ConfigFeatureFlags) -> bool;
+pub uninterp spec fn flag_token_badge_spec() -> crate::validators::ConfigFeatureFlags;
+#[verifier::external_body]
+pub fn flag_token_badge() -> (r: crate::validators::ConfigFeatureFlags) ensures r == flag_token_badge_spec() { unimplemented!() }
+impl WhirlpoolsConfig {
+    #[verifier::external_body]
+    pub fn verify_enabled_feature(&self, feature: crate::validators::ConfigFeatureFlags) -> (r: Result<()>) ensures r is Ok <==> feature_enabled(self.feature_flags, feature) { unimplemented!() }
+}
+//@ struct state/config_extension.rs WhirlpoolsConfigExtension
+//@ struct state/token_badge.rs TokenBadge
+//@ enum state/token_badge.rs TokenBadgeAttribute
+impl WhirlpoolsConfigExtension {
+//@ fn state/config_extension.rs initialize in=/^impl WhirlpoolsConfigExtension \{/ -> r
+    ensures r is Ok, *final(self) == (WhirlpoolsConfigExtension { whirlpools_config: whirlpools_config, config_extension_authority: default_authority, token_badge_authority: default_authority }),
+//@ end
+//@ fn state/config_extension.rs update_config_extension_authority in=/^impl WhirlpoolsConfigExtension \{/
+    ensures *final(self) == (WhirlpoolsConfigExtension { config_extension_authority: config_extension_authority, ..*old(self) }),
+//@ end
+//@ fn state/config_extension.rs update_token_badge_authority in=/^impl WhirlpoolsConfigExtension \{/
+    ensures *final(self) == (WhirlpoolsConfigExtension { token_badge_authority: token_badge_authority, ..*old(self) }),
+//@ end
+}
+impl TokenBadge {
+//@ fn state/token_badge.rs initialize in=/^impl TokenBadge \{/ -> r
+    ensures r is Ok, *final(self) == (TokenBadge { whirlpools_config: whirlpools_config, token_mint: token_mint, attribute_require_non_transferable_position: false }),
+//@ end
+//@ fn state/token_badge.rs update_attribute in=/^impl TokenBadge \{/ -> r
+    ensures r is Ok, final(self).whirlpools_config == old(self).whirlpools_config, final(self).token_mint == old(self).token_mint,
+        attribute matches TokenBadgeAttribute::RequireNonTransferablePosition(v) ==> final(self).attribute_require_non_transferable_position == v,
+//@ end
+}
+// ------------------------------------------------------------------ set_token_badge_authority
+//@ struct instructions/v2/set_token_badge_authority.rs SetTokenBadgeAuthority
+//@ constraints instructions/v2/set_token_badge_authority.rs SetTokenBadgeAuthority
+//@ fn instructions/v2/set_token_badge_authority.rs handler -> r as=set_token_badge_authority_handler canary
+    requires constraints_SetTokenBadgeAuthority(old(ctx.accounts)),
+    ensures
+        r is Ok ==> old(ctx.accounts).config_extension_authority.skey() == old(ctx.accounts).whirlpools_config_extension.data.config_extension_authority && old(ctx.accounts).config_extension_authority.info.is_signer, //# C04
+        r is Ok ==> old(ctx.accounts).whirlpools_config_extension.data.whirlpools_config == old(ctx.accounts).whirlpools_config.skey(), //# C04
+        r is Ok ==> final(ctx.accounts).whirlpools_config_extension.data == (WhirlpoolsConfigExtension { token_badge_authority: old(ctx.accounts).new_token_badge_authority.k, ..old(ctx.accounts).whirlpools_config_extension.data }), //# C04
+//@ end
+
+// ------------------------------------------------------------------ set_config_extension_authority
+//@ struct instructions/v2/set_config_extension_authority.rs SetConfigExtensionAuthority
+//@ constraints instructions/v2/set_config_extension_authority.rs SetConfigExtensionAuthority
+//@ fn instructions/v2/set_config_extension_authority.rs handler -> r as=set_config_extension_authority_handler canary
+    requires constraints_SetConfigExtensionAuthority(old(ctx.accounts)),
+    ensures
+        r is Ok ==> old(ctx.accounts).config_extension_authority.skey() == old(ctx.accounts).whirlpools_config_extension.data.config_extension_authority && old(ctx.accounts).config_extension_authority.info.is_signer, //# C04
+        r is Ok ==> old(ctx.accounts).whirlpools_config_extension.data.whirlpools_config == old(ctx.accounts).whirlpools_config.skey(), //# C04
+        r is Ok ==> final(ctx.accounts).whirlpools_config_extension.data == (WhirlpoolsConfigExtension { config_extension_authority: old(ctx.accounts).new_config_extension_authority.k, ..old(ctx.accounts).whirlpools_config_extension.data }), //# C04
+//@ end
+
+// ------------------------------------------------------------------ initialize_token_badge
+//@ struct instructions/v2/initialize_token_badge.rs InitializeTokenBadge
+//@ constraints instructions/v2/initialize_token_badge.rs InitializeTokenBadge
+//@ fn instructions/v2/initialize_token_badge.rs handler -> r as=initialize_token_badge_handler canary
+    requires constraints_InitializeTokenBadge(old(ctx.accounts)),
+    ensures
+        r is Ok ==> old(ctx.accounts).token_badge_authority.skey() == old(ctx.accounts).whirlpools_config_extension.data.token_badge_authority && old(ctx.accounts).token_badge_authority.info.is_signer, //# C04
+        r is Ok ==> old(ctx.accounts).whirlpools_config_extension.data.whirlpools_config == old(ctx.accounts).whirlpools_config.skey(), //# C04
+        r is Ok ==> feature_enabled(old(ctx.accounts).whirlpools_config.data.feature_flags, flag_token_badge_spec()), //# C19
+        r is Ok ==> final(ctx.accounts).token_badge.data == (TokenBadge { whirlpools_config: old(ctx.accounts).whirlpools_config.skey(), token_mint: old(ctx.accounts).token_mint.skey(), attribute_require_non_transferable_position: false }), //# C19 C04
+//@ rewrite /ConfigFeatureFlags::TOKEN_BADGE/ => /flag_token_badge()/
+//@ end
+
+// ------------------------------------------------------------------ delete_token_badge
+//@ struct instructions/v2/delete_token_badge.rs DeleteTokenBadge
+//@ constraints instructions/v2/delete_token_badge.rs DeleteTokenBadge
+//@ fn instructions/v2/delete_token_badge.rs handler -> r as=delete_token_badge_handler canary
+    requires constraints_DeleteTokenBadge(old(ctx.accounts)),
+    ensures
+        r is Ok ==> old(ctx.accounts).token_badge_authority.skey() == old(ctx.accounts).whirlpools_config_extension.data.token_badge_authority && old(ctx.accounts).token_badge_authority.info.is_signer, //# C04
+        r is Ok ==> old(ctx.accounts).whirlpools_config_extension.data.whirlpools_config == old(ctx.accounts).whirlpools_config.skey(), //# C04
+        r is Ok ==> old(ctx.accounts).token_badge.data.whirlpools_config == old(ctx.accounts).whirlpools_config.skey(), //# C04
+        r is Ok ==> feature_enabled(old(ctx.accounts).whirlpools_config.data.feature_flags, flag_token_badge_spec()), //# C19
+//@ rewrite /ConfigFeatureFlags::TOKEN_BADGE/ => /flag_token_badge()/
+//@ end
+
+// ------------------------------------------------------------------ set_token_badge_attribute
+//@ struct instructions/v2/set_token_badge_attribute.rs SetTokenBadgeAttribute
+//@ constraints instructions/v2/set_token_badge_attribute.rs SetTokenBadgeAttribute
+//@ fn instructions/v2/set_token_badge_attribute.rs handler -> r as=set_token_badge_attribute_handler canary
+    requires constraints_SetTokenBadgeAttribute(old(ctx.accounts)),
+    ensures
+        r is Ok ==> old(ctx.accounts).token_badge_authority.skey() == old(ctx.accounts).whirlpools_config_extension.data.token_badge_authority && old(ctx.accounts).token_badge_authority.info.is_signer, //# C04
+        r is Ok ==> old(ctx.accounts).whirlpools_config_extension.data.whirlpools_config == old(ctx.accounts).whirlpools_config.skey(), //# C04
+        r is Ok ==> old(ctx.accounts).token_badge.data.whirlpools_config == old(ctx.accounts).whirlpools_config.skey() && old(ctx.accounts).token_badge.data.token_mint == old(ctx.accounts).token_mint.skey(), //# C04
+        r is Ok ==> final(ctx.accounts).token_badge.data.whirlpools_config == old(ctx.accounts).token_badge.data.whirlpools_config && final(ctx.accounts).token_badge.data.token_mint == old(ctx.accounts).token_badge.data.token_mint, //# C04
+//@ rewrite /ConfigFeatureFlags::TOKEN_BADGE/ => /flag_token_badge()/
+//@ end
+
+// ------------------------------------------------------------------ initialize_config_extension
+//@ struct instructions/v2/initialize_config_extension.rs InitializeConfigExtension
+//@ constraints instructions/v2/initialize_config_extension.rs InitializeConfigExtension
+//@ fn instructions/v2/initialize_config_extension.rs handler -> r as=initialize_config_extension_handler canary
+    requires constraints_InitializeConfigExtension(old(ctx.accounts)),
+    ensures
+        r is Ok ==> old(ctx.accounts).fee_authority.skey() == old(ctx.accounts).config.data.fee_authority && old(ctx.accounts).fee_authority.info.is_signer, //# C04
+        r is Ok ==> final(ctx.accounts).config_extension.data == (WhirlpoolsConfigExtension { whirlpools_config: old(ctx.accounts).config.skey(), config_extension_authority: old(ctx.accounts).fee_authority.skey(), token_badge_authority: old(ctx.accounts).fee_authority.skey() }), //# C04
+//@ end
 }
